@@ -346,7 +346,7 @@ class bptk():
 
 
     def begin_session(self, scenarios, scenario_managers, settings={},agents=[], agent_states=[], agent_properties=[],
-                       agent_property_types=[], individual_agent_properties=[], equations=[],starttime=0.0, dt=1.0):
+                       agent_property_types=[], individual_agent_properties=[], equations=[],starttime=0.0, dt=None):
         """Begins a session to allow stepwise simulation.
 
         This resets the internal session cache, there can only be one session at any time.
@@ -376,8 +376,8 @@ class bptk():
                 Names of equations to plot (System Dynamics).
             starttime: Float (Default=0.0)
                 Timestep at which to start.
-            dt: Dt (Default=1.0)
-                Deltatime.
+            dt: Dt (Default=None)
+                Deltatime. If not given, the dt of the selected scenarios is used (1.0 if there are none), so that the session steps on the same time grid as a batch run.
 
         """
         self.session_state = None
@@ -430,6 +430,7 @@ class bptk():
 
         starttime_ = starttime
         stoptime_ = None
+        dt_ = dt
 
         for _, manager in self.scenario_manager_factory.scenario_managers.items():
             if manager.name in scenario_managers:
@@ -440,6 +441,8 @@ class bptk():
                                 scenario_object.configure_settings(settings[manager.name][scenario])
                         starttime_ = max(starttime_, scenario_object.starttime)
                         stoptime_ = min(stoptime_,scenario_object.stoptime) if stoptime_ is not None else scenario_object.stoptime
+                        if dt is None and getattr(scenario_object, "dt", None):
+                            dt_ = min(dt_, scenario_object.dt) if dt_ is not None else scenario_object.dt
                         self.reset_scenario_cache(scenario_manager=manager.name, scenario=scenario)
 
         self.session_state = {
@@ -455,7 +458,7 @@ class bptk():
             "step": starttime_,
             "starttime": starttime_,
             "stoptime": stoptime_,
-            "dt": dt,
+            "dt": dt_ if dt_ is not None else 1.0,
             "settings_log":{},
             "results_log":{},
             "lock": False
